@@ -78,6 +78,20 @@ def finalize(plan):
         pos += len(dmg)
     tail = seps[len(items)] if len(seps) > len(items) else b''
     parts.append(tail)
+    # 'container': the declared total length of one message is enlarged so that it ends exactly where a
+    # later message ends - by its declared length that message IS those octets (metadata-only scanning)
+    for i, s in enumerate(segs):
+        f = s['fault']
+        if f and f['kind'] == 'total':
+            k = i + f['count']
+            if k >= len(segs) or k == i or any(x['damaged'] for x in segs[i + 1:k + 1]) or \
+                    segs[k]['end'] - s['start'] >= (1 << 24) or plan.get('family') != 'c17-stream':
+                return {'stream': b'', 'segs': segs, 'ok': False, 'why': 'container layout not possible'}
+            s['bytes'] = bufrgen.apply_fault(s['orig'], dict(f, value=segs[k]['end'] - s['start']))
+            parts[2 * i + 1] = s['bytes']
+            s['span_end'] = segs[k]['end']
+            for x in segs[i + 1:k + 1]:
+                x['swallowed'] = True
     stream = b''.join(parts)
     lay = {'stream': stream, 'segs': segs, 'ok': True, 'why': None}
 
@@ -119,7 +133,7 @@ def finalize(plan):
         elif k == 'undef':
             sure = f['pos'] in bufrgen.top_level_positions(w0['ids'])
             s['must_skip'] = bool(sure and (w0['nsub'] >= 1 or w0['compressed']))
-        elif k == 'data':
+        elif k in ('data', 'total'):
             s['must_skip'] = False
         elif k == 'trunc':
             # the producer crashed: the stream ends inside this message (end of input). Only as the very
@@ -429,7 +443,8 @@ def _gen_plan(family, rng, pool, tier):
         a, b = _pick(rng, pool, 2, tiny)
         raw = bytes.fromhex(a['hex'])
         w = bufrgen.walk(raw)
-        faults = [{'kind': 'stopsig', 'bytes': x} for x in ('37373738', '00000000', '37373700')]
+        faults = [{'kind': 'stopsig', 'bytes': x} for x in ('37373738', '00000000', '37373700', '37377b37', '7b7d3737',
+                                                            '25732564')]
         uel, useq = bufrgen.undefined_element_ids(), bufrgen.undefined_sequence_ids()
         for p in range(len(w['ids'])):
             faults.append({'kind': 'undef', 'pos': p, 'id': rng.choice(uel), 'sub': 'undef_el'})
@@ -524,6 +539,12 @@ def _gen_plan(family, rng, pool, tier):
             fault = gen_data_damage(rng, raw) if (rng.random() < 0.6 and raw.find(b'BUFR', 1) < 0) else None
             items.append(_item(e, fault))
         seps = [gen_separator(rng)[1].hex() for _ in range(len(items) + 1)]
+        if len(items) >= 2 and rng.random() < 0.3:
+            # a container: message i declares a total length that ends where message i+count ends
+            i = rng.randrange(len(items) - 1)
+            cnt = rng.randint(1, len(items) - 1 - i)
+            if not any(it.get('fault') for it in items[i:i + cnt + 1]):
+                items[i]['fault'] = {'kind': 'total', 'count': cnt}
         front = rng.choice(['api', 'api', 'cli-info-m', 'cli-info-c', 'cli-split'])
         return {'knobs': {'mode': 'info', 'coe': rng.random() < 0.5, 'front': front, 'compiled': None,
                           'filter': None}, 'items': items, 'seps': seps}
@@ -889,6 +910,8 @@ def _fk(f):
         return f.get('sub', 'undef')
     if f['kind'] == 'trunc':
         return 'eof'
+    if f['kind'] == 'total':
+        return 'container'
     return f['kind']
 
 
@@ -931,7 +954,13 @@ def oracle_stream(plan, tr, prop):
     for s in segs:
         dg = (_h(s['bytes']), len(s['bytes']))
         declared.append(len(s['orig']))
-        if not s['damaged']:
+        if s.get('swallowed'):
+            slots.append((dg, 'no'))           # lies inside the declared extent of a container message
+        elif s.get('span_end'):
+            span = lay['stream'][s['start']:s['span_end']]
+            declared[-1] = len(span)
+            slots.append(((_h(span), len(span)), 'req'))
+        elif not s['damaged']:
             slots.append((dg, 'req' if keep(s) else 'no'))
         elif fam == 'c17-stream':
             slots.append((dg, 'req'))          # data damage is invisible to a metadata-only scan
@@ -1184,6 +1213,12 @@ def oracle_c17(plan, tr):
         for ex, front, val, err, exc in tr.get('cli', []):
             exp = md_expected(ex, secs)
             if exp[0] == 'skip':
+                continue
+            # which message object a command builds (metadata-only or fully decoded) is its own business:
+            # only lookups whose answer is the same for both are compared (sections 0-3)
+            nm = ex.strip()[1:].split('.')[-1]
+            if nm in ('template_data', 'stop_signature') or (expr_class(ex) == 'indexed' and
+                                                             int(ex.strip()[1:].split('.')[0]) >= 4):
                 continue
             if exc is not None:
                 out.append({'property': 'C17', 'clause': 'C17.b-cli-traceback', 'front': front,
